@@ -1,5 +1,5 @@
 SPECIFICATION Spec
-CONSTANT MaxBreaches = 3
+CONSTANT MaxBreaches = 4
 INVARIANTS Sound SoftNeverError Complete
 ACTION_CONSTRAINT Emit
 CHECK_DEADLOCK FALSE
